@@ -85,6 +85,10 @@ func handObjects() []interface{} {
 		OnlyMethods{21}, &OnlyMethods{4},
 		map[string]interface{}{"A": 1, "name": "m", "Title": "mt", "nil": nil},
 		map[string]interface{}{},
+		map[string]string{"A": "sa", "name": "sn", "X": ""},
+		map[string]int{"A": 11, "B": 22, "ID": 0},
+		map[string][]int{"A": {1, 2}},
+		map[string]*Alpha{"A": {A: 7, B: "seven"}},
 	}
 }
 
@@ -145,6 +149,12 @@ func refAttr(obj interface{}, name string) (val interface{}, ambiguous bool) {
 		return m[name], false
 	}
 	v := reflect.ValueOf(obj)
+	if v.Kind() == reflect.Map && v.Type().Key().Kind() == reflect.String {
+		if e := v.MapIndex(reflect.ValueOf(name)); e.IsValid() {
+			return e.Interface(), false
+		}
+		return nil, false
+	}
 	isPtr := v.Kind() == reflect.Ptr
 	if isPtr {
 		if v.IsNil() {
@@ -208,6 +218,7 @@ type c20Op struct {
 	Obj    int    `json:"obj"` // < 100: hand-written object; otherwise generated type id = Obj-100
 	Name   string `json:"name"`
 	Render bool   `json:"render,omitempty"`
+	Item   bool   `json:"item,omitempty"` // x['name'] instead of x.name (maps only)
 }
 
 type c20Sc struct {
@@ -277,7 +288,7 @@ func (propC20) Gen(seed uint64, ex map[string]bool) interface{} {
 			case 0: // ordinary lookups
 				n := r.Range(3, 15)
 				for i := 0; i < n; i++ {
-					op := c20Op{Obj: pickObj(), Name: pick(r, c20Names), Render: r.P(15)}
+					op := c20Op{Obj: pickObj(), Name: pick(r, c20Names), Render: r.P(15), Item: r.P(30)}
 					ops = append(ops, op)
 					seen = append(seen, op)
 				}
@@ -334,7 +345,12 @@ func (propC20) Run(scI interface{}) *Outcome {
 		tpls[t] = make([]*twig.Template, len(sc.Tasks[t]))
 		for i, op := range sc.Tasks[t] {
 			if op.Render {
-				tpls[t][i], _ = engines[t].ParseTemplate("{{ x." + op.Name + "|json_encode }}\x00{{ v|json_encode }}")
+				acc := "x." + op.Name
+				o := c20Object(hands[t], op.Obj)
+				if op.Item && o != nil && reflect.TypeOf(o).Kind() == reflect.Map {
+					acc = "x['" + op.Name + "']"
+				}
+				tpls[t][i], _ = engines[t].ParseTemplate("{{ " + acc + "|json_encode }}\x00{{ v|json_encode }}")
 			}
 		}
 	}
@@ -352,6 +368,10 @@ func (propC20) Run(scI interface{}) *Outcome {
 					w.AdvanceClock(-3600e9)
 				}
 				obj := c20Object(hand, op.Obj)
+				isMap := obj != nil && reflect.TypeOf(obj).Kind() == reflect.Map
+				if op.Item && !isMap {
+					op.Item = false // the subscript form is only specified for maps
+				}
 				want, amb := refAttr(obj, op.Name)
 				var sizeBefore int
 				var wasCached bool
@@ -382,6 +402,8 @@ func (propC20) Run(scI interface{}) *Outcome {
 						gerr = err
 						got = out
 						pr.renders++
+					} else if op.Item {
+						got, gerr = twig.VerifGetItem(obj, op.Name)
 					} else {
 						got, gerr = twig.VerifGetAttribute(obj, op.Name)
 					}
@@ -427,6 +449,12 @@ func (propC20) Run(scI interface{}) *Outcome {
 						continue
 					}
 					kind := "wrong member"
+					if isMap {
+						kind = "map key"
+						if op.Item {
+							kind = "map key via subscript"
+						}
+					}
 					if f, ok := reflectFieldDepth(obj, op.Name); ok && f > 1 {
 						kind = "promoted field of an embedded struct"
 					}
